@@ -20,7 +20,7 @@ DISK = {"save": 5, "crash_restart": 4}
 
 
 def hist_weights(work=60, net=True, disk=True, views=False):
-    w = {"work": work}
+    w = {"work": work, "query": 5}
     if net:
         w.update(NET)
     if disk:
@@ -50,11 +50,17 @@ class C01Checker(Checker):
         n = w.nodes[i]
         if n.unknown or n.primary is None:
             return
-        sk = n.primary
+        sk = w.observer(n.primary)
         truth = n.truth
+        live = None
+        if ev["op"] == "query" and w.fam in CMS:
+            live = (unhex(ev["key"]), int(info["res"]))
+            w.probes["live_query_events"] += 1
         for ident in w.universe:
             est = int(sk.query(ident))
             alias = int(sk[ident])
+            if live is not None and live[0] == ident and live[1] != est:
+                self.fail("live_query_ne_table_estimate", f"node={i} key={ident.hex()} query() on the live object returned {live[1]}, the table gives {est}")
             if alias != est:
                 self.fail("getitem_ne_query", f"key={ident.hex()} sketch[key]={alias} query={est}")
             t = truth.get(ident, 0)
@@ -509,7 +515,8 @@ class C05Checker(Checker):
         sk = w.party(w.nodes[i], ev.get("via", 0))
         key = unhex(ev["key"])
         w.note_key(key)
-        est = {u: sk.query(u) for u in w.universe}
+        ob = w.observer(sk)
+        est = {u: ob.query(u) for u in w.universe}
         ctx = {"est": est, "tab": sk.cms.copy(), "nadd": int(sk.n_added()), "key": key, "v": ev.get("v", 1)}
         if w.fam in LOG:
             cells = w.owner_cells(key)
@@ -524,7 +531,8 @@ class C05Checker(Checker):
         sk = info["sk"]
         key, v = ctx["key"], ctx["v"]
         old = ctx["est"]
-        new = {u: sk.query(u) for u in w.universe}
+        ob = w.observer(sk)
+        new = {u: ob.query(u) for u in w.universe}
         ek0, ek1 = old[key], new[key]
         dn = int(sk.n_added()) - ctx["nadd"]
         if w.fam == "linear":
@@ -700,8 +708,9 @@ class C09Checker(Checker):
                 np.copyto(dst, arr)
             for dst, arr in zip(tables(E, w.fam), b_pre):
                 np.copyto(dst, arr)
+            ob = w.observer(sk)
             for u in w.universe:
-                ea, eb, em = int(X.query(u)), int(E.query(u)), int(sk.query(u)) if info.get("via0", True) else 0
+                ea, eb, em = int(X.query(u)), int(E.query(u)), int(ob.query(u))
                 # estimate through the merged table (a_post)
                 if em < min(ea + eb, U32MAX):
                     self.fail("merged_estimate_below_sum", f"key {u.hex()}: {ea} + {eb} -> {em}")
@@ -879,8 +888,9 @@ class C10Checker(ShadowEq):
                 if state_bytes(cp, fam) != state_bytes(orig, fam):
                     self.fail("loaded_state_differs", f"{route} shared={shared}: {self.where(w, cp, orig)}")
                 if fam in CMS or fam == "hh":
+                    ob = w.observer(orig)
                     for u in w.universe:
-                        a, b = estimate(cp, fam, u), estimate(orig, fam, u)
+                        a, b = estimate(cp, fam, u), estimate(ob, fam, u)
                         if a != b:
                             self.fail("loaded_query_differs", f"key {u.hex()}: {a} vs {b}")
                     if int(cp.n_added()) != int(orig.n_added()) or int(cp.n_records()) != int(orig.n_records()):
@@ -893,6 +903,18 @@ class C10Checker(ShadowEq):
                 else:
                     if cp.query() != orig.query():
                         self.fail("loaded_query_differs", f"{cp.query()} vs {orig.query()}")
+                if shared:
+                    # a sketch loaded with shared_memory=True must really live in its block:
+                    # a second object attached to it sees the loaded state
+                    shm = getattr(cp, "shm", None)
+                    if shm is None:
+                        self.fail("shared_load_has_no_segment", f"{route} load(shared_memory=True) returned a sketch without shm")
+                    peer = make_sketch(w.cfg, shared=False)
+                    api("attach", peer.attach_existing_shm, shm.name)
+                    if state_bytes(peer, fam) != state_bytes(orig, fam):
+                        self.fail("shared_load_not_backed_by_its_segment", f"{route} load(shared_memory=True): an object attached to the loaded sketch's block sees {self.where(w, peer, orig)}")
+                    del peer
+                    w.probes["shared_loads_checked_through_a_peer"] += 1
                 api("merge", cp.merge, orig)  # merges with the original without error
                 del cp
         for other, ld in cross_loaders(fam).items():
@@ -946,8 +968,9 @@ class C12Checker(ShadowEq):
         self.eq(w, i, ev["op"])
         n = w.nodes[i]
         if w.fam in CMS:
+            ob = w.observer(n.primary)
             for k, _ in info["exp"][:6]:
-                a, b = n.primary[k], n.primary.query(k)
+                a, b = ob[k], ob.query(k)
                 if a != b:
                     self.fail("getitem_ne_query", f"key {k.hex()}: sketch[key]={a} query={b}")
         op = ev["op"]
@@ -1131,6 +1154,15 @@ class C16Checker(ShadowEq):
             for pi, pty in enumerate(parties):
                 if int(pty.n_added()) != int(n.shadow.n_added()) or int(pty.n_records()) != int(n.shadow.n_records()):
                     self.fail("bookkeeping_differs_from_in_memory", f"node={i} party={pi}")
+            if w.fam == "hh" and int(n.shadow.n_added()) < U32MAX:
+                # every party is asked after every event, so each one's private candidate
+                # cache is warm when another party changes the shared state
+                for k, t in ((10 ** 6, None), (3, 1)):
+                    want = [(bytes(a), int(b)) for a, b in n.shadow.query(k, t)]
+                    for pi, pty in enumerate(parties):
+                        got = [(bytes(a), int(b)) for a, b in pty.query(k, t)]
+                        if [c for _, c in got] != [c for _, c in want] or {a for a, _ in got if _ > (want[-1][1] if want else 0)} != {a for a, _ in want if _ > (want[-1][1] if want else 0)}:
+                            self.fail("query_differs_from_in_memory", f"node={i} party={pi} query({k},{t}) = {got}; in-memory sketch answers {want}")
         if n.views:
             w.probes["events_with_views_compared"] += 1
             if "via" in ev and ev["via"]:
@@ -1197,7 +1229,8 @@ class C18Checker(Checker):
         if op != "deliver":
             for k, _ in w.expansion(ev):
                 w.note_key(k)
-        return {"node": i, "est": {u: estimate(n.primary, w.fam, u) for u in w.universe}}
+        ob = w.observer(n.primary)
+        return {"node": i, "est": {u: estimate(ob, w.fam, u) for u in w.universe}}
 
     def after(self, w, ev, ctx, info):
         if info is None:
@@ -1218,8 +1251,9 @@ class C18Checker(Checker):
         sk = n.primary
         if w.fam in CMS:
             top = U32MAX if w.fam == "linear" else None
+            ob = w.observer(sk)
             for u, old in ctx["est"].items():
-                new = estimate(sk, w.fam, u)
+                new = estimate(ob, w.fam, u)
                 if new < old:
                     self.fail("estimate_decreased", f"node={i} key {u.hex()}: {old} -> {new} after {ev['op']}")
                 if w.fam == "linear":
@@ -1382,9 +1416,10 @@ class C06Checker(Checker):
         # (b) lower bound on every history
         if n.primary is not None and not n.unknown:
             nr1 = int(n.primary.num_reserved) + 1
+            ob = w.observer(n.primary)
             for u in w.universe:
                 t = n.truth.get(u, 0)
-                q = float(n.primary.query(u))
+                q = float(ob.query(u))
                 if q < min(t, nr1):
                     self.fail("estimate_below_reserved_lower_bound", f"node={i} key {u.hex()}: query={q} true={t} num_reserved+1={nr1} after {op}")
                 if t > nr1:
